@@ -62,7 +62,7 @@ ASSUMPTIONS = [
     "twice before the failure",
 ]
 NONTRIVIAL = ["interleaving", "seqcell", "stresscell"]
-DEADLINE = {"quick": 70, "thorough": 900}
+DEADLINE = {"quick": 200, "thorough": 900}
 WATCHDOG = {"quick": 600, "thorough": 5400}
 USE_DRBG = True
 
